@@ -133,6 +133,9 @@ func proofJSON(p cashu.Proof) []byte {
 	if p.Witness != "" {
 		pairs = append(pairs, kv{"witness", p.Witness})
 	}
+	if p.DLEQ != nil {
+		pairs = append(pairs, kv{"dleq", json.RawMessage(obj(kv{"e", p.DLEQ.E}, kv{"s", p.DLEQ.S}))})
+	}
 	return obj(pairs...)
 }
 
@@ -462,7 +465,7 @@ func (m *mach) opSwap(t *rapid.T) {
 	if total <= fee {
 		return
 	}
-	variant := rapid.SampledFrom([]string{"ok", "ok", "ok", "insufficient", "dup_inputs", "dup_outputs", "secret_too_long", "invalid_proof", "unknown_keyset_input", "unknown_keyset_output", "inactive_keyset_output", "already_signed_output", "spent_input"}).Draw(t, "swap_variant")
+	variant := rapid.SampledFrom([]string{"ok", "ok", "ok", "insufficient", "dup_inputs", "dup_inputs_other_spelling", "dup_outputs", "secret_too_long", "invalid_proof", "unknown_keyset_input", "unknown_keyset_output", "inactive_keyset_output", "already_signed_output", "spent_input"}).Draw(t, "swap_variant")
 	outs := m.w.MakeOutputs(world.Split(total-fee), m.w.ActiveID)
 	want := 0
 	inJSON := proofsJSON(inputs)
@@ -475,6 +478,21 @@ func (m *mach) opSwap(t *rapid.T) {
 			return
 		}
 		inJSON = arr(proofJSON(inputs[0]), proofJSON(inputs[0]))
+		outs = m.w.MakeOutputs(world.Split(2*inputs[0].Amount-m.w.FeeFor(cashu.Proofs{inputs[0], inputs[0]})), m.w.ActiveID)
+		want = 11007
+	case "dup_inputs_other_spelling":
+		// the same proof twice, the copies differing in a member that does not make it another proof (a witness, a
+		// dleq object): the cause of the refusal is still a duplicate input
+		if 2*inputs[0].Amount <= m.w.FeeFor(cashu.Proofs{inputs[0], inputs[0]}) {
+			return
+		}
+		d := inputs[0]
+		if rapid.Bool().Draw(t, "dup_by_witness") {
+			d.Witness = `{"signatures":[]}`
+		} else {
+			d.DLEQ = &cashu.DLEQProof{E: strings.Repeat("00", 32), S: strings.Repeat("00", 32)}
+		}
+		inJSON = arr(proofJSON(inputs[0]), proofJSON(d))
 		outs = m.w.MakeOutputs(world.Split(2*inputs[0].Amount-m.w.FeeFor(cashu.Proofs{inputs[0], inputs[0]})), m.w.ActiveID)
 		want = 11007
 	case "dup_outputs":
